@@ -10,7 +10,7 @@ import (
 )
 
 func init() {
-	extraGens = append(extraGens, func(repo, out string) {
+	registerGen([]string{"ScalConsts.v"}, func(repo, out string) {
 		var b bytes.Buffer
 		header(&b, "interval units (proto/col_interval.go)")
 		cs := constsOf(filepath.Join(repo, "proto/col_interval.go"), constEnv{})
